@@ -2,6 +2,7 @@ import ComposeVerif.Ops.Common
 import ComposeVerif.Model.Heap
 import ComposeVerif.Gen.CopyPlan
 import ComposeVerif.Model.Derivations
+import ComposeVerif.Model.HeapVisit
 /-! line-protocol ops for C14: `c14.copy` (model of the generated deep copy), `c14.spec` (isolation decided by the spec) -/
 open Lean
 namespace CV.Ops.C14
@@ -159,6 +160,37 @@ def derivOp : Handler := fun args =>
   | _, none, _ => Json.mkObj [("bad", .str ("no program for " ++ getStr args "op"))]
   | _, _, .error e => Json.mkObj [("bad", .str e)]
 
-def handlers : List (String × Handler) := [("c14.copy", copyOp), ("c14.spec", specOp), ("c14.deriv", derivOp)]
+/-- which branches of the walk an input can reach (input distribution of `c14.visit`), from the final state and the receiver -/
+def visitBranches (src : GoVal) (policy : String) (st : CV.Heap.Visit.VSt) : List String :=
+  let svcs := CV.Heap.Deriv.mapEntries (getFld CV.Heap.Deriv.fServices src)
+  let visited := st.out.map (·.1)
+  let optMissing := visited.any fun n => (CV.Heap.Deriv.mapEntries (getFld CV.Heap.Deriv.fDependsOn (getIdx n (getFld CV.Heap.Deriv.fServices src)))).any fun (d, dv) =>
+    !(svcs.any (·.1 == d)) && scalarStr (getFld CV.Heap.Deriv.fRequired dv) != "b:true"
+  (if st.err == some "no such service" then ["error-no-such-service"] else []) ++
+  (if st.out.isEmpty && st.err.isNone then ["nothing-visited"] else []) ++
+  (if st.out.length > 1 then ["several-visited"] else []) ++
+  (if policy == "deps" && optMissing && st.err.isNone then ["optional-missing-dependency-skipped"] else []) ++
+  (if policy == "dependents" && st.log.length > st.out.length then ["dependent-map-stored"] else []) ++
+  (if st.out.any (fun e => !(CV.Heap.Deriv.isNil (getFld CV.Heap.Deriv.fDependsOn e.2))) then ["visited-has-depends-on"] else [])
+
+/-- the walk of `withServices` on the encoded receiver: the services handed to the visitor (as one `Services` map made
+after the walk), error class, and whether every write of the walk went through memory allocated since the call -/
+def visitOp : Handler := fun args =>
+  match rootOf "ServiceConfig", ofJson (getObj args "src") with
+  | some (ty, plan), .ok src =>
+    let n := (oaddrs src).foldl (fun m a => max m (a+1)) (frontier src)
+    let policy := getStr args "policy"
+    let st := CV.Heap.Visit.forEachService ty plan src policy false (getStrList args "names") n
+    let res : GoVal := .map st.next (st.out.map fun e => (Key.str e.1, match e.2 with | .ptr _ v => v | v => v))
+    Json.mkObj [("res", toJson (sortMaps res)),
+      ("err", match st.err with | some e => Json.str e | none => Json.null),
+      ("confined", Json.bool (st.log.all fun w => n ≤ w.1)),
+      ("writes", (st.log.length : Nat)),
+      ("order", Json.arr (st.out.map fun e => Json.str e.1).toArray),
+      ("branches", Json.arr ((visitBranches src policy st).map Json.str).toArray)]
+  | none, _ => Json.mkObj [("bad", "no ServiceConfig root")]
+  | _, .error e => Json.mkObj [("bad", .str e)]
+
+def handlers : List (String × Handler) := [("c14.copy", copyOp), ("c14.spec", specOp), ("c14.deriv", derivOp), ("c14.visit", visitOp)]
 
 end CV.Ops.C14
